@@ -32,7 +32,14 @@ def _combo(self):
     return self.scaled() + self.w
 
 
-def make_classes():
+def make_classes(boot=None):
+    """boot: optional function(target) run by an on_init method of the target class (after the constructor's keywords
+    are in place, as part of construction)"""
+    def _boot(self):
+        if boot is not None and not self.__dict__.get("_booted"):
+            self.__dict__["_booted"] = True
+            boot(self)
+
     S = type("S", (param.Parameterized,), {"v": param.Number(default=1), "w": param.Number(default=2),
                                            "s": param.String(default="s0"),
                                            # a dependent method that depends on another dependent method and a parameter
@@ -42,6 +49,9 @@ def make_classes():
         "x": param.Number(default=0, bounds=(-1000, 1000), allow_refs=True),
         "y": param.Number(default=0, bounds=(-1000, 1000), allow_refs=True),
         "t": param.String(default="", allow_refs=True),
+        # one Parameter object for the class and all its instances (no per-instance copy)
+        "z": param.Number(default=0, bounds=(-1000, 1000), allow_refs=True, per_instance=False),
+        "_boot": param.depends("p", watch=True, on_init=True)(_boot),
         "lst": param.List(default=[], allow_refs=True, nested_refs=True),
         "d": param.Dict(default={}, allow_refs=True, nested_refs=True),
         "c": param.Number(default=5, bounds=(-1000, 1000), allow_refs=True, constant=True),
@@ -50,6 +60,10 @@ def make_classes():
         "q": param.Integer(default=2, bounds=(0, 10)),
         # a parameter made of two others: assigning it assigns them
         "pq": param.Composite(attribs=["p", "q"]),
+        # ... whose second component is a constant / a read-only parameter / a parameter that accepts references
+        "pc": param.Composite(attribs=["p", "c"]),
+        "pr": param.Composite(attribs=["p", "r"]),
+        "px": param.Composite(attribs=["p", "x"]),
         # rejects with OSError (not ValueError / TypeError) when the folder does not exist
         "pth": param.Foldername(default=None),
         # validation of this one has an effect of its own (check_on_set=False adds the value to the objects)
@@ -95,7 +109,7 @@ str_ref = st.tuples(st.just("str"), _si).map(list)
 
 
 def ref_for(tname):
-    if tname in ("x", "y", "c", "r"):
+    if tname in ("x", "y", "z", "c", "r"):
         return num_ref
     if tname == "t":
         return str_ref
